@@ -3,6 +3,7 @@
 mod c12;
 mod c13;
 mod c14;
+mod c14_bytes;
 mod corpus;
 mod grammar;
 mod real;
@@ -21,6 +22,7 @@ fn main() {
         "C14" => c14::run(rest),
         // hidden: supervised worker of C14's nesting families
         "__c14-worker" => c14::worker(rest),
+        "__c14-bytes-worker" => c14_bytes::worker(rest),
         _ => mc_core::machinery_error(&format!("mc-lang does not serve {prop}")),
     }
 }
